@@ -52,7 +52,7 @@ pub fn run_inner(case: &Case, out: &mut Outcome) -> Result<(), Bad> {
             if s != (n as u64 * (n as u64 - 1)) / 2 {
                 bad!("C09", "big-count", "HashMap values().for_each visited a different multiset (sum {s})");
             }
-            for probe in [0u32, 1, 65_535, 65_536, n as u32 - 1] {
+            for probe in [0u32, 1, 65_535, 65_536, n as u32 - 1].into_iter().filter(|p| (*p as usize) < n) {
                 if m.get(&ArrKey { id: probe, tag: 1 }) != Some(&(probe as u64)) {
                     bad!("C01", "big-lookup", "key {probe} of {n} not found");
                 }
@@ -119,7 +119,7 @@ pub fn run_inner(case: &Case, out: &mut Outcome) -> Result<(), Bad> {
             }
             count_check("HashTable len", "C06", t.len(), n)?;
             count_check("HashTable iter().count()", "C09", t.iter().count(), n)?;
-            for probe in [0u32, 65_535, 65_536, n as u32 - 1] {
+            for probe in [0u32, 65_535, 65_536, n as u32 - 1].into_iter().filter(|p| (*p as usize) < n) {
                 if t.find(plan.hash(probe as u64), |e| e.0 == probe).is_none() {
                     bad!("C06", "big-lookup", "element {probe} of {n} not found");
                 }
